@@ -538,6 +538,121 @@ impl Property for C02 {
         &["checked", "release"]
     }
 
+    /// every SUBSET of the properties legal for CONNACK (2^17) and PUBLISH (2^7 x QoS x
+    /// DUP/RETAIN), every reason code of every acknowledgement type x short/long form
+    fn exhaustive(_tier: Tier, worker: usize, workers: usize) -> Box<dyn Iterator<Item = Case>> {
+        let bit = |m: u32, i: u32| m & (1 << i) != 0;
+        let rev = rc::Form { order: vec![9, 8, 7, 6, 5, 4, 3, 2, 1, 0], short: false };
+        let connacks = (0u32..(1 << 17)).map(move |m| Case {
+            input: In::Connack {
+                pkt: rc::Connack {
+                    session_present: m % 3 == 0,
+                    reason: 0,
+                    session_expiry: bit(m, 0).then_some(0x0102_0304),
+                    receive_maximum: bit(m, 1).then_some(0x0506),
+                    maximum_qos: bit(m, 2).then_some((m % 2) as u8),
+                    retain_available: bit(m, 3).then_some(false),
+                    maximum_packet_size: bit(m, 4).then_some(0x0708_090a),
+                    assigned_client_id: bit(m, 5).then(|| "aci".to_string()),
+                    topic_alias_maximum: bit(m, 6).then_some(0x0b0c),
+                    reason_string: bit(m, 7).then(|| "rs".to_string()),
+                    user_props: if bit(m, 8) { vec![("k".into(), "1".into()), ("k".into(), "2".into())] } else { vec![] },
+                    wildcard_available: bit(m, 9).then_some(false),
+                    sub_ids_available: bit(m, 10).then_some(true),
+                    shared_available: bit(m, 11).then_some(false),
+                    server_keep_alive: bit(m, 12).then_some(0x0d0e),
+                    response_information: bit(m, 13).then(|| "ri".to_string()),
+                    server_reference: bit(m, 14).then(|| "sr".to_string()),
+                    auth_method: bit(m, 15).then(|| "am".to_string()),
+                    auth_data: bit(m, 16).then(|| vec![0xad]),
+                },
+                via_auth: m % 5 == 0,
+            },
+            form: if m % 2 == 0 { rc::Form::canonical() } else { rev.clone() },
+            chunk: 0,
+        });
+        let rev2 = rc::Form { order: vec![9, 8, 7, 6, 5, 4, 3, 2, 1, 0], short: false };
+        let publishes = (0u32..(1 << 7)).flat_map(move |m| {
+            let rev2 = rev2.clone();
+            (0u8..12).map(move |f| {
+                let qos = f % 3;
+                Case {
+                    input: In::Publish(rc::Publish {
+                        dup: f / 3 % 2 == 1 && qos > 0,
+                        qos,
+                        retain: f / 6 == 1,
+                        topic: "t/x".into(),
+                        pid: (qos > 0).then_some(0x1234),
+                        payload_format: bit(m, 0).then_some(true),
+                        message_expiry: bit(m, 1).then_some(0x0102_0304),
+                        topic_alias: bit(m, 2).then_some(0x0506),
+                        response_topic: bit(m, 3).then(|| "rt".to_string()),
+                        correlation_data: bit(m, 4).then(|| vec![0xc0, 0xc1]),
+                        user_props: if bit(m, 5) { vec![("a".into(), "b".into())] } else { vec![] },
+                        subscription_ids: vec![],
+                        content_type: bit(m, 6).then(|| "ct".to_string()),
+                        payload: vec![1, 2, 3],
+                    }),
+                    form: if f % 2 == 0 { rc::Form::canonical() } else { rev2.clone() },
+                    chunk: 0,
+                }
+            })
+        });
+        let mut acks = vec![];
+        for short in [false, true] {
+            for deco in 0u8..4 {
+                let rs = (deco & 1 != 0).then(|| "why".to_string());
+                let up: UserProps = if deco & 2 != 0 { vec![("u".into(), "p".into())] } else { vec![] };
+                let form = rc::Form { order: vec![], short };
+                for r in rc::PUBACK_REASONS {
+                    let a = rc::Ack { pid: 1, reason: *r, reason_string: rs.clone(), user_props: up.clone() };
+                    acks.push(Case { input: In::Puback(a.clone()), form: form.clone(), chunk: 0 });
+                    acks.push(Case { input: In::Pubrec(a), form: form.clone(), chunk: 0 });
+                }
+                for r in rc::PUBCOMP_REASONS {
+                    let a = rc::Ack { pid: 1, reason: *r, reason_string: rs.clone(), user_props: up.clone() };
+                    acks.push(Case { input: In::Pubcomp(a.clone()), form: form.clone(), chunk: 0 });
+                    acks.push(Case { input: In::Pubrel(rc::Ack { pid: 0x0102, ..a }), form: form.clone(), chunk: 0 });
+                }
+                for r in rc::SUBACK_REASONS {
+                    acks.push(Case { input: In::Suback(rc::AckList { pid: 1, reason_string: rs.clone(), user_props: up.clone(), reasons: vec![*r, 0] }), form: form.clone(), chunk: 0 });
+                }
+                for r in rc::UNSUBACK_REASONS {
+                    acks.push(Case { input: In::Unsuback(rc::AckList { pid: 1, reason_string: rs.clone(), user_props: up.clone(), reasons: vec![*r] }), form: form.clone(), chunk: 0 });
+                }
+                for r in rc::SERVER_DISCONNECT_REASONS {
+                    acks.push(Case {
+                        input: In::Disconnect(rc::Disconnect { reason: *r, session_expiry: None, reason_string: rs.clone(), server_reference: (deco == 3).then(|| "srv".to_string()), user_props: up.clone() }),
+                        form: form.clone(),
+                        chunk: 0,
+                    });
+                }
+                for r in rc::CONNACK_REASONS {
+                    acks.push(Case {
+                        input: In::Connack { pkt: rc::Connack { reason: *r, reason_string: rs.clone(), user_props: up.clone(), server_reference: (deco == 3).then(|| "srv".to_string()), ..Default::default() }, via_auth: short },
+                        form: form.clone(),
+                        chunk: 0,
+                    });
+                }
+                for r in rc::SERVER_AUTH_REASONS {
+                    acks.push(Case {
+                        input: In::Auth { pkt: rc::Auth { reason: *r, method: Some("m".into()), data: (deco & 1 != 0).then(|| vec![9]), reason_string: rs.clone(), user_props: up.clone() }, via_auth: short },
+                        form: form.clone(),
+                        chunk: 0,
+                    });
+                }
+            }
+        }
+        Box::new(
+            connacks
+                .chain(publishes)
+                .chain(acks)
+                .enumerate()
+                .filter(move |(i, _)| i % workers == worker)
+                .map(|(_, c)| c),
+        )
+    }
+
     fn assumptions() -> Vec<String> {
         vec![
             "the reference encoder in refcodec.rs emits only well-formed MQTT 5 (self-tested by strict re-decoding)".into(),
